@@ -137,6 +137,22 @@ pub fn run(tape: &mut Tape, props: Props, p: &Params, trace_on: bool) -> Outcome
         *m = l2 + if v6 { *tape.pick(&mtus_v6) } else { *tape.pick(&mtus_v4) };
     }
     let mut cfgs = [NodeCfg::basic('A', medium, mtu[0], 1, v6), NodeCfg::basic('B', medium, mtu[1], 2, v6)];
+    // one run in four uses addresses whose 16-bit words add up to almost 0xffff each, so that the pseudo-header sum of
+    // some segment lengths lands exactly on the values where the end-around carry has to be folded twice
+    if tape.draw(4) == 0 {
+        for (i, c) in cfgs.iter_mut().enumerate() {
+            c.addrs = if v6 {
+                let mut a = [0u8; 16];
+                a[0] = 0xfd;
+                a[12] = 0x02;
+                a[13] = 0xef;
+                a[15] = 1 + i as u8;
+                vec![(IpAddr::V6(a), 64)]
+            } else {
+                vec![(IpAddr::V4([192, 168, 63, 60 + i as u8]), 24)]
+            };
+        }
+    }
     let mut rxb = [0usize; 2];
     let mut txb = [0usize; 2];
     for i in 0..2 {
